@@ -693,6 +693,10 @@ func classifyFirstUse(p *Program, st ast.Stmt, v string) (string, bool) {
 			if id, ok := call.Fun.(*ast.Ident); ok && id.Name == "len" && len(call.Args) == 1 && exprStr(p.Fset, call.Args[0]) == v {
 				return
 			}
+			if how, ok := sortingCalleeOn(p, call, v, 0); ok {
+				hows = append(hows, how)
+				return
+			}
 			if how, ok := sortCallOn(p, call, v); ok {
 				hows = append(hows, how)
 				for _, a := range call.Args[1:] {
@@ -734,4 +738,81 @@ func truncate(s string, n int) string {
 		return s[:n] + "…"
 	}
 	return s
+}
+
+// calleeDecl: the declaration of the module function or method a call invokes statically.
+func calleeDecl(p *Program, call *ast.CallExpr) *ast.FuncDecl {
+	var id *ast.Ident
+	switch fun := call.Fun.(type) {
+	case *ast.Ident:
+		id = fun
+	case *ast.SelectorExpr:
+		id = fun.Sel
+	default:
+		return nil
+	}
+	for _, pk := range p.Pkgs {
+		obj := pk.TypesInfo.Uses[id]
+		if obj == nil {
+			continue
+		}
+		fn, ok := obj.(*types.Func)
+		if !ok || fn.Pkg() == nil || !inModule(fn.Pkg().Path()) {
+			return nil
+		}
+		for _, pk2 := range p.Pkgs {
+			if pk2.Types != fn.Pkg() {
+				continue
+			}
+			for _, file := range pk2.Syntax {
+				for _, d := range file.Decls {
+					if fd, ok := d.(*ast.FuncDecl); ok && pk2.TypesInfo.Defs[fd.Name] == obj && fd.Body != nil {
+						return fd
+					}
+				}
+			}
+		}
+	}
+	return nil
+}
+
+// sortingCalleeOn: the call hands v (and v only once) to a module function whose first use of
+// the corresponding parameter is a sort of it: the slice is sorted before anything reads it.
+func sortingCalleeOn(p *Program, call *ast.CallExpr, v string, depth int) (string, bool) {
+	if depth > 1 {
+		return "", false
+	}
+	idx, n := -1, 0
+	for i, a := range call.Args {
+		if exprStr(p.Fset, a) == v {
+			idx = i
+			n++
+		} else if mentionsExpr(p, a, v) {
+			return "", false
+		}
+	}
+	if n != 1 {
+		return "", false
+	}
+	fd := calleeDecl(p, call)
+	if fd == nil || fd.Type.Params == nil {
+		return "", false
+	}
+	param, k := "", 0
+	for _, fl := range fd.Type.Params.List {
+		for _, nm := range fl.Names {
+			if k == idx {
+				param = nm.Name
+			}
+			k++
+		}
+	}
+	if param == "" || param == "_" {
+		return "", false
+	}
+	how, ok, used := firstUseIsSort(p, fd.Body.List, param)
+	if !used || !ok {
+		return "", false
+	}
+	return "sorted first thing by " + fd.Name.Name + " (" + how + ")", true
 }
